@@ -17,7 +17,7 @@ from .. import wireshape as W
 from ..model import unparse, walk_body_shallow
 from .c02 import magic_arms, wrapper_offset_rule
 from .c04 import KCQ, diff_terms, tmatch
-from .util import const_value, call_name, call_recv, calls_in, need, norm, where
+from .util import at, const_value, call_name, call_recv, calls_in, need, norm, where
 
 TECHNIQUE = "wire-grammar extraction of decoders vs hand-transcribed schema with leaf->struct-attribute flow; unpack-shape " \
             "check; encoder/decoder grammar symmetry"
@@ -109,6 +109,21 @@ def run(ctx):
     r.check(not problem, "%s.decode_fetch_response#grammar" % KCQ, "fetch response layout: %s" % problem, where(f, f.node))
     r.info("decode_fetch_response leaves num_topics unbound for version 1 (unreachable under the quantifier: min 0, max >= 2)")
 
+    # every element a counted loop reads is collected: nothing inside the loop decides to drop one
+    for name in sorted(KS.RESPONSES):
+        f = ctx.func("%s.%s" % (KCQ, name))
+        cfd_ = ctx.cfg(f)
+        for ln in [n for n in cfd_.nodes if n.kind == "for" and isinstance(n.stmt.iter, ast.Call) and norm(n.stmt.iter.func) == "range"]:
+            lbody = cfd_.reach([ln.id], avoid=[t for t, lab in cfd_.succ[ln.id] if lab == ("iter", False)])
+            sinks_ = [n for n in cfd_.nodes if n.id in lbody and n.stmt is not None and n.kind == "stmt" and (
+                any(call_name(c) in ("append", "add") for c in n.calls()) or any(isinstance(x, ast.Yield) for x in n.walk()) or (
+                    isinstance(n.stmt, ast.Assign) and isinstance(n.stmt.targets[0], ast.Subscript)))]
+            for sn in sinks_:
+                deps = [norm(t.stmt.test) for t, lab in cfd_.control_deps_transitive(sn.id, within=lbody) if t.kind == "test" and "api_version" not in norm(t.stmt.test)]
+                r.check(not deps, "%s.%s#element-collected(%s)" % (KCQ, name, sn.text(40)),
+                        "an element read inside a counted loop is collected only when %s" % deps, where(f, sn.stmt),
+                        "entries the decoder does not like are silently dropped: the decoded list is shorter than what was encoded")
+
     # ---- R2 unpack shape
     r = ctx.rule("R2", "a constant n-field relative_unpack is destructured into n names (or its value is never used)", 40, "A")
     n_sites = 0
@@ -179,6 +194,19 @@ def run(ctx):
         null_r = any(isinstance(x, ast.Compare) and norm(x).endswith("== -1") for x in ast.walk(rf.node))
         r.check(len(wfm) == 1 and wfm == rfm and struct.calcsize(list(wfm)[0]) == size and null_r, "_util:%s/%s#symmetry" % (wname, rname),
                 "length prefix written as %s, read as %s; null marker -1 recognised=%s" % (sorted(wfm), sorted(rfm), null_r), where(rf, rf.node))
+
+    for rname, enc_ in (("read_short_ascii", "ascii"), ("read_short_text", "utf-8")):
+        rf = ctx.func("_util:" + rname)
+        crf = ctx.cfg(rf)
+        retn = [n for n in crf.nodes if n.kind == "stmt" and isinstance(n.stmt, ast.Return)]
+        okt = len(retn) >= 1
+        for n in retn:
+            v = n.stmt.value
+            first = v.elts[0] if isinstance(v, ast.Tuple) and len(v.elts) == 2 else None
+            first = at(ctx, rf, n.id, first) if first is not None else None
+            okt = okt and isinstance(first, ast.Call) and call_name(first) == "decode" and len(first.args) == 1 and str(const_value(prog, rf, first.args[0])).lower() == enc_
+        r.check(okt, "_util:%s#decodes-on-every-path" % rname, "the text reader returns something other than the %s-decoded bytes on some path" % enc_,
+                where(rf, rf.node), "an empty STRING decodes to b'' instead of '' (a JoinGroup error reply carries empty ids)")
 
     # ---- R4 codec table + R6 sibling agreement of the per-magic decoders
     r = ctx.rule("R4", "both per-magic decoders handle none/gzip/snappy with the matching decompressor and raise otherwise; "
